@@ -361,6 +361,19 @@ MUTANTS = {
         'depthwise_quantizer.get_config()',
         '      layer_cfg["kernel_quantizer"][\n          "config"] = '
         'depthwise_quantizer.get_config()')]),
+    "m74_group_scale_tiled_instead_of_repeated": dict(
+        expect=["C04", "C05"], edits=[E(
+            Q, "  return tf.repeat(x, repeats=repeats, axis=axis)\n",
+            "  shape = x.shape.as_list()\n  multiples = [1] * (len(shape) + "
+            "1)\n  multiples[axis] = repeats\n  shape[axis] *= repeats\n"
+            "  return tf.reshape(tf.tile(tf.expand_dims(x, axis), multiples),"
+            " shape)\n")]),
+    "m75_range_step_from_floored_max": dict(expect=["C01"], edits=[E(
+        Q, "    return p_and_n * np.array(\n        K.pow(2.0, -self.bits + "
+        "K.cast(self.integer, dtype=\"float32\") + 1),\n        "
+        "dtype=\"float32\")",
+        "    return p_and_n * np.array(\n        self.max() / 2.0 ** ("
+        "self.bits - 1), dtype=\"float32\")")]),
 }
 
 BENIGN = {
@@ -548,4 +561,11 @@ BENIGN = {
         "max_int_bits + max_fractional_bits\n",
         "      max_int_bits = int_bits + max_shift\n      "
         "total_bits = max_int_bits + (bits - int_bits) - min_shift\n")]),
+    "b30_group_scale_expand_tile_reshape": dict(props=["C04", "C05", "C09"],
+                                                edits=[E(
+        Q, "  return tf.repeat(x, repeats=repeats, axis=axis)\n",
+        "  shape = x.shape.as_list()\n  multiples = [1] * (len(shape) + 1)"
+        "\n  multiples[axis + 1] = repeats\n  shape[axis] *= repeats\n"
+        "  return tf.reshape(\n      tf.tile(tf.expand_dims(x, axis + 1), "
+        "multiples), shape)\n")]),
 }
